@@ -90,6 +90,21 @@ func execDecodeCase(c *Case) []ModeResult {
 		return valueObs([]tensor.Tensor{t})
 	})
 	res := []ModeResult{{"TensorFromProto", Verdict(c, a), a.Short()}}
+	if x.Enc == "raw" {
+		// the typed fields of a raw-encoded tensor are present but EMPTY (a tool that moved the payload into raw_data and truncated
+		// the typed field in place, `tp.FloatData = tp.FloatData[:0]`): a field without elements is not populated (Decode.tla)
+		a2 := guard(func() Observation {
+			tp := mkProtoX(x, "w")
+			tp.FloatData, tp.DoubleData, tp.Int32Data, tp.Int64Data, tp.Uint64Data = []float32{}, []float64{}, []int32{}, []int64{}, []uint64{}
+			tp.StringData = [][]byte{}
+			t, err := onnx.TensorFromProto(tp)
+			if err != nil {
+				return observeErr(err)
+			}
+			return valueObs([]tensor.Tensor{t})
+		})
+		res = append(res, ModeResult{"TensorFromProto:empty-typed-fields", Verdict(c, a2), a2.Short()})
+	}
 	b := guard(func() Observation {
 		// a well-formed initializer follows: the outcome of the first must not depend on it
 		follower := &onnx.TensorProto{Name: "z_follower", DataType: 1, Dims: []int64{2}, FloatData: []float32{1, 2}}
